@@ -109,8 +109,8 @@ def run(pid, tier, seed, labels, terminal_labels, e1_cfgs, e1_invariants, e1_pro
     # ---- E1 -------------------------------------------------------------------------------------------------
     jobs = [(c, e1_invariants, e1_properties, e1_timeout, os.cpu_count() or 8) for c in e1_cfgs]
     cex = []
-    # the whole E1 phase of a thorough run is given 100 minutes: configurations that do not fit are listed as skipped
-    e1_budget = float(os.environ.get('VERIF_E1_BUDGET', '6000'))
+    # the whole E1 phase of a thorough run is given 60 minutes: configurations that do not fit are listed as skipped
+    e1_budget = float(os.environ.get('VERIF_E1_BUDGET', '3600'))
     e1_t0 = time.time()
 
     def budgeted(js):
